@@ -850,6 +850,13 @@ class _Gen:
         if r.random() < .3:
             m = r.choice([m for m in s.mods if not m.is_pkg])
             rules.append(f'HIDDEN:{s.modname(m.mid)}')
+        # a rule on one member of a class that other classes derive from (they inherit the member without overriding it)
+        anc = s.notes.get('anc', {})
+        base_uids = {b for a in anc.values() for b in a if b is not None}
+        members = [u for u, (mid, qual, kind) in s.defs.items() if kind in ('func', 'var') and '.' in qual
+                   and s.notes['qual2uid'].get((mid, qual.rsplit('.', 1)[0])) in base_uids]
+        if members and r.random() < .6:
+            rules.append(f"{r.choice(['HIDDEN', 'HIDDEN', 'PRIVATE'])}:{s.final_fullname(r.choice(members))}")
         s.privacy = rules
 
 
